@@ -11,6 +11,7 @@ import (
 
 	"verif/internal/chk"
 	"verif/internal/engine"
+	"verif/internal/gen"
 )
 
 type checkFn func(x *ctx)
@@ -104,6 +105,7 @@ func runCheck(id, tier string, workers int, f checkFn) (code int) {
 	}
 	pool := engine.NewPool(bins, workers)
 	defer pool.Close()
+	pool.NewCfgDir("core", gen.CoreConfig(engine.RepoRoot))
 	r := chk.NewRun(id, tier)
 	x := &ctx{run: r, bins: bins, pool: pool, tier: tier, seed: r.Seed}
 	defer func() {
